@@ -139,7 +139,7 @@ func (w *c8world) history(kind, a int, lg *zap.Logger) {
 	case 5:
 		lg.Warn("errors", zap.Errors("errs", []error{errors.New("x"), nil, fmt.Errorf("wrap: %w", errors.New("y"))}), zap.Error(multierr.Combine(errors.New("other-1"), errors.New("other-2"))))
 	case 6:
-		c8recurse(60+a*7, func() { lg.Error("deep stack") })
+		c8recurse([]int{60, 67, 74, 130, 520, 1040}[a%6], func() { lg.Error("deep stack") })
 	case 7:
 		lg.Info("fields for the console", zap.Strings("ss", []string{"p", "q"}), zap.Int("a", a), zap.Namespace("cn"), zap.Bool("b", true))
 	case 8:
@@ -206,7 +206,7 @@ func runC08(c *Ctx) {
 	stackOn := g.Chance(2)
 	if stackOn {
 		popts = append(popts, zap.AddStacktrace(zapcore.ErrorLevel))
-		w.depth = pick(g, 0, 3, 40, 61, 62, 63, 64, 65, 70, 130)
+		w.depth = pick(g, 0, 3, 40, 61, 62, 63, 64, 65, 70, 130, 130, 600, 1100, 1500)
 	}
 	if g.Chance(2) {
 		popts = append(popts, zap.AddCaller())
